@@ -1114,14 +1114,27 @@ def _native_histories(tier="quick", seed=0):
                 z.writestr(n2.replace("TMP", ""), d.replace(b"TMP", b""))
         return out.getvalue()
 
+    def layout_picture_deck():
+        """the last (unused) layout shows a picture that no slide uses: its image part is reachable through that layout only"""
+        from pptx.oxml.shapes.picture import CT_Picture
+
+        prs = Presentation()
+        lay = prs.slide_layouts[len(prs.slide_layouts) - 1]
+        image_part, rId = lay.part.get_or_add_image_part(io.BytesIO(png((255, 0, 0))))
+        lay.shapes._spTree.append(CT_Picture.new_pic(900, "Layout Picture", "red.png", rId, 0, 0, 100, 100))
+        prs.slides.add_slide(prs.slide_layouts[0])
+        buf = io.BytesIO()
+        prs.save(buf)
+        return buf.getvalue()
+
     N = 40 if tier == "quick" else 600
     L = 10 if tier == "quick" else 16
     perms = [(7, 3, 9), (1, 4, 3), (2, 1, 3), (1, 3, 2), (3, 2, 1), (2, 3, 4), (1, 2, 4), (1, 5, 3, 4)]
-    starts = [("default_template", None)] + [("slide_parts_named_%s" % "_".join(map(str, q)), out_of_order_deck(q)) for q in perms]
+    starts = [("default_template", None), ("unused_layout_with_picture", layout_picture_deck())] + [("slide_parts_named_%s" % "_".join(map(str, q)), out_of_order_deck(q)) for q in perms]
     for label, start in starts:
         rnd = random.Random(seed * 7919 + (1 if start else 0))
         bad = None
-        for h in range(N if start is None or label.endswith("7_3_9") else max(4, N // 8)):
+        for h in range(N if start is None or label.endswith(("7_3_9", "with_picture")) else max(4, N // 8)):
             prs = Presentation(io.BytesIO(start)) if start else Presentation()
             hist = []
             save_each = h % 3 == 0
@@ -1153,10 +1166,50 @@ def _native_histories(tier="quick", seed=0):
             if bad:
                 break
         rec("C02.native.histories[%s]" % label, bad)
+    # scripted histories: part reuse after the only route to a part has been removed
+    def scripted_image_reuse():
+        prs = Presentation(io.BytesIO(layout_picture_deck()))
+        sl = prs.slides[0]
+        sl.shapes.add_picture(io.BytesIO(png((0, 255, 0))), 0, 0)            # looks the package's images up
+        prs.slide_layouts.remove(prs.slide_layouts[len(prs.slide_layouts) - 1])   # the red image is no longer reachable
+        sl.shapes.add_picture(io.BytesIO(png((0, 0, 255))), 0, 0)            # a new image part; may take the freed name
+        sl.shapes.add_picture(io.BytesIO(png((255, 0, 0))), 0, 0)            # the removed layout's image again
+        return prs
+
+    def scripted_media_reuse():
+        prs = Presentation()
+        a = prs.slides.add_slide(prs.slide_layouts[6])
+        b = prs.slides.add_slide(prs.slide_layouts[6])
+        mv = lambda k: io.BytesIO(b"\x00\x00\x00\x18ftypmp42" + bytes([k]))
+        m1 = a.shapes.add_movie(mv(1), 0, 0, 100, 100, poster_frame_image=None, mime_type="video/mp4")
+        b.shapes.add_movie(mv(2), 0, 0, 100, 100, poster_frame_image=None, mime_type="video/mp4")
+        # drop the first slide altogether (its media is then unreachable), add new media, then the dropped one again
+        sldIdLst = prs.slides._sldIdLst
+        prs.part.drop_rel(sldIdLst.sldId_lst[0].rId)
+        sldIdLst.remove(sldIdLst.sldId_lst[0])
+        b.shapes.add_movie(mv(3), 0, 0, 100, 100, poster_frame_image=None, mime_type="video/mp4")
+        b.shapes.add_movie(mv(1), 0, 0, 100, 100, poster_frame_image=None, mime_type="video/mp4")
+        return prs
+
+    for label, script in (("image_reused_after_its_layout_was_removed", scripted_image_reuse), ("media_reused_after_its_slide_was_dropped", scripted_media_reuse)):
+        bad = None
+        try:
+            prs = script()
+            buf = io.BytesIO()
+            prs.save(buf)
+            evals[0] += 1
+            v = _closed_violations(buf.getvalue())
+            if v:
+                bad = "%s: saved file not closed: %s" % (label, v[:3])
+            elif _deck_summary(Presentation(io.BytesIO(buf.getvalue()))) != _deck_summary(prs):
+                bad = "%s: re-opened deck differs from the in-memory one" % label
+        except Exception as e:
+            bad = "%s: raised %r" % (label, e)
+        rec("C02.native.scripted[%s]" % label, bad)
     return {"contract": "C02.native_histories", "prop": "C02", "status": "ok", "obligations": obls, "paths": 0, "assumed": [], "functions": {},
             "notes": [], "solver_s": 0.0, "wall_s": _t.time() - t0,
             "bounded": {"name": "C02.native_histories", "bound": "%d random histories of %d operations over 15 operation kinds, from the default template and from decks whose slide parts are named 7,3,9 / 1,4,3 / 2,1,3 / 1,3,2 / 3,2,1 / 2,3,4 / 1,2,4 / 1,5,3,4 in presentation order; "
-                        "a third of the histories save (and inspect, re-open, compare) after every step, the rest at the end" % (sum(N if (st is None or lb.endswith('7_3_9')) else max(4, N // 8) for lb, st in starts), L),
+                        "a third of the histories save (and inspect, re-open, compare) after every step, the rest at the end" % (sum(N if (st is None or lb.endswith(('7_3_9', 'with_picture'))) else max(4, N // 8) for lb, st in starts), L),
                         "evaluations": evals[0], "samples": [], "counted_as_proved": False}}
 
 
